@@ -117,7 +117,9 @@ func (fs *FileStorage) GetMessages(offset uint64) ([]storage.Message, error) {
 	scanner := bufio.NewScanner(fs.dataFile)
 	buf := make([]byte, 0, 64*1024)
 	scanner.Buffer(buf, 1024*1024)
+	var position uint64
 	for scanner.Scan() {
+		position++ // this line is the entry at position-1
 		if offset > 0 {
 			offset--
 			continue
@@ -131,6 +133,10 @@ func (fs *FileStorage) GetMessages(offset uint64) ([]storage.Message, error) {
 		if err = json.Unmarshal(row, &data); err != nil {
 			return nil, fmt.Errorf("failed to unmarshal a message %s: %w", string(row), err)
 		}
+
+		// an entry's offset is its position in the log, whatever the entry itself claims: the node
+		// resumes reading at offset+1 of the last entry it was given
+		data.Offset = position - 1
 
 		_, idOk := fs.idIgnoreList[data.ID]
 		_, offsetOk := fs.offsetIgnoreList[data.Offset]
